@@ -1169,7 +1169,9 @@ class BaseLoss(object):
         # Divide through to obtain the number of parameters we are inferring
         num_out = int(p/num_s) # number of out parameters
 
-        sens = np.reshape(sens, (n, num_s, num_out), 'F')
+        # a copy: the reshape is a view of the caller's array, which must not
+        # be multiplied by the weights in place
+        sens = np.reshape(sens, (n, num_s, num_out), 'F').copy()
         for j in range(num_out):
             sens[:, :, j] *= self._weight
 
@@ -1208,7 +1210,9 @@ class BaseLoss(object):
         J = np.zeros((num_out, num_out))
         # s = np.zeros((numS, numOut))
 
-        sens = np.reshape(sens, (n, num_s, num_out), 'F')
+        # a copy: the reshape is a view of the caller's array, which must not
+        # be multiplied by the weights in place
+        sens = np.reshape(sens, (n, num_s, num_out), 'F').copy()
 
         for j in range(num_out):
             sens[:,:,j] *= self._weight
